@@ -77,7 +77,7 @@ var generators = []generator{
 		c13HTTPSplit(c)
 	}},
 	{"lru-writers", []string{"R03b", "R05a"}, func(c *Ctx, _ map[string]bool) { lruWriters(c) }},
-	{"lru-accounting", []string{"R03c", "R03d", "R03e", "R04b", "R05b", "R05d", "R17a", "R17b"}, func(c *Ctx, _ map[string]bool) { lruAccounting(c) }},
+	{"lru-accounting", []string{"R03c", "R03d", "R03e", "R04b", "R04g", "R05b", "R05d", "R17a", "R17b"}, func(c *Ctx, _ map[string]bool) { lruAccounting(c) }},
 	{"lru-misc", []string{"R05a", "R03f", "R04c", "R17c", "R17e", "R01b", "R05e"}, func(c *Ctx, want map[string]bool) {
 		lruMisc(c, wantAny(want, "R05a", "R03f", "R04c", "R17c", "R17e", "R01b", "R05e"))
 	}},
@@ -144,8 +144,8 @@ func prop(id string, rules []string, explanation, notDecided string, extraTrust 
 const structural = "Static analysis of /repo's current type-checked source (go/packages + go/types, per-function go/cfg explored path-sensitively with bounded inlining of the module's own callees). Decided are structural necessary conditions of the property - breaking any of them changes the behaviour the property describes - not the behaviour itself. "
 
 func init() {
-	prop("C01", []string{"R01a", "R01b", "R01c", "R01d", "R01e", "R01f", "R01g", "R01h", "R01i", "R16a"},
-		structural+"Decided: (R01f) at every ingress that reaches Cache.Put the hash and the size come from one declaration or from the stored bytes themselves; (R01c/R01d/R01e) inside the disk cache every CAS byte stream goes through a writer that hashes exactly the bytes it stores, compares SHA-256 and length with the declared ones and probes for trailing bytes before its only success return; (R01a/R01b) the index insertion is dominated by that success and nothing else inserts; (R01g) the reader handed to Cache.Put is the whole request payload (body, decoder over it, pipe fed by it, or the complete byte slice), never a truncating wrapper, so trailing or extra bytes reach the verifying writer; (R01h) every OK / nil / 200 acknowledgement in package server is dominated by Put having returned nil for that blob.",
+	prop("C01", []string{"R01a", "R01b", "R01c", "R01d", "R01e", "R01f", "R01g", "R01h", "R01i", "R16a", "R08a"},
+		structural+"Decided: (R01f) at every ingress that reaches Cache.Put the hash and the size come from one declaration or from the stored bytes themselves; (R01c/R01d/R01e) inside the disk cache every CAS byte stream goes through a writer that hashes exactly the bytes it stores, compares SHA-256 and length with the declared ones and probes for trailing bytes before its only success return; (R01a/R01b) the index insertion is dominated by that success and nothing else inserts; (R01g) the reader handed to Cache.Put is the whole request payload (body, decoder over it, pipe fed by it, or the complete byte slice), never a truncating wrapper, so trailing or extra bytes reach the verifying writer; (R01h) every OK / nil / 200 acknowledgement in package server is dominated by Put having returned nil for that blob; (R08a) a compressed CAS file becomes a readable casblob (chunk table written) only after the trailing-data probe and the hash comparison, so a rejected or still unverified upload never leaves a file the start-up loader would index under the claimed digest.",
 		"Not decided: that SHA-256 / zstd libraries compute what they claim; that a well-formed upload within limits is accepted (liveness); that an acknowledged blob stays readable until evicted (C05/C07 clauses); the content of decompressed data (decoder correctness).")
 	prop("C02", []string{"R02a", "R02b", "R02c", "R02d", "R02e"},
 		structural+"Decided: (R02a) the read_limit budget test dominates every Send in ByteStream.Read and the budget is decreased by what is sent; (R02b) the empty blob is answered before any index lookup on every read / existence path; (R02c) a zstd label (Compressor_ZSTD, Content-Encoding: zstd) is produced exactly on paths whose bytes come from GetZstd; (R02d) the casblob readers take chunk size and chunk positions from the parsed header only, never from the writer's default; (R02e) a reader stops after the first decoded chunk only when that chunk is the last one of the header's table.",
@@ -153,8 +153,8 @@ func init() {
 	prop("C03", []string{"R03a", "R03b", "R03c", "R03d", "R03e", "R03f"},
 		structural+"Decided: (R03b) the three counters and the index are written only by Add / removeElement / Reserve / Unreserve; (R03c) each of those changes the counters by exactly the 4 KiB-rounded size of the entry that enters or leaves, or the reserved amount, on every exit (linear-form analysis), failing exits change nothing; (R03d) the eviction loops run exactly until currentSize + delta <= maxSize for the delta added next; (R03a) every Reserve in the disk cache is paired with exactly one Unreserve of the same amount on every path including deferred clean-up; (R03e) removeElement re-validates stale list handles; (R03f) /status reports those counters.",
 		"Not decided: the arithmetic invariant as a statement about runtime values across interleavings (that is induction over histories; the rules give its inductive step per mutator and the pairing per request path); overflow of int64 sums.")
-	prop("C04", []string{"R04a", "R04b", "R04c", "R04d", "R04e", "R04f"},
-		structural+"Decided: (R04a) every temp file created in Put / get is indexed or removed on every exit; (R04b) every removal from the index queues the removed entry's file for deletion, an overwrite queues the old value; (R04c) the background remover deletes exactly the queued entry's path; (R04d) every os.Remove / Open in cache/disk works on a path derived from FileLocation / getElementPath or a created temp file; (R04e) the name a file is created under, the name computed for lookups and the start-up loader's grammar agree for every (kind, legacy) combination.",
+	prop("C04", []string{"R04a", "R04b", "R04c", "R04d", "R04e", "R04f", "R04g"},
+		structural+"Decided: (R04a) every temp file created in Put / get is indexed or removed on every exit; (R04b) every removal from the index queues the removed entry's file for deletion, an overwrite queues the old value; (R04c) the background remover deletes exactly the queued entry's path; (R04d) every os.Remove / Open in cache/disk works on a path derived from FileLocation / getElementPath or a created temp file; (R04e) the name a file is created under, the name computed for lookups and the start-up loader's grammar agree for every (kind, legacy) combination; (R04f) the file opened for a hit is the indexed entry's own path; (R04g) SizedLRU.Add refuses an entry before it touches list, map, value or eviction queue, so the caller's removal of the refused file cannot leave an indexed entry without a file.",
 		"Not decided: file-system behaviour (rename/remove atomicity), that the directory is otherwise untouched, timing of the background remover (quiescence is a runtime notion).")
 	prop("C05", []string{"R05a", "R05b", "R05d", "R05e", "R03d", "R03c"},
 		structural+"Decided: (R05a) every index hit moves the element to the front before it is returned and Add pushes to the front, the map is touched by SizedLRU methods only; (R05b) victims come from the back of the list; (R03d) the eviction loop guard is the exact negation of the fit condition for the incoming delta (no eviction without pressure, minimal eviction); (R05d) an item that cannot fit is rejected before any eviction; (R05e) Put reserves the logical size and commit adds size = logical size, sizeOnDisk = bytes written; (R03c) the accounted size every eviction decision is taken from changes by exactly the entry that enters or leaves, so no phantom pressure builds up.",
@@ -168,8 +168,8 @@ func init() {
 	prop("C08", []string{"R08a", "R08b", "R08d", "R08e", "R01a", "R04a", "R06g"},
 		structural+"Decided: (R08a) WriteAndClose writes the chunk table only after all chunks, the trailing probe and the hash comparison, then f.Sync() and f.Close() are error-checked before success; the header written first cannot validate without the table; (R08b) raw files are synced and closed with checked errors before success; (R08d) readHeader rejects every torn or inconsistent table (magic, count, frame size, chunk size, monotone offsets, last offset == file size) and both readers start with it; (R01a) the entry is indexed only after writeAndCloseFile returned nil; (R04a) a file that was not verified is removed on every exit - files are created under their final names, so a leftover would be indexed by the next start; (R08e) every class of entry that is served (compressed CAS, legacy CAS, AC/RAW) passed a completeness check of its file - on the pinned tree only compressed CAS does, the other two classes are recorded known findings (D31: a torn AC/RAW/.v1 file left by a kill is indexed and served).",
 		"Not decided: crash behaviour of the file system itself (ordering of rename vs. data blocks beyond fsync of the file; the directory is not fsynced), start-up success on arbitrary torn directories (C09).")
-	prop("C09", []string{"R09b", "R09c", "R09e", "R09f", "R04e", "R15a", "R05d"},
-		structural+"Decided: (R04e/R15a) every name the writer can produce is accepted by the loader's grammar with the capture groups landing on the fields scanDir assigns, and the kind/prefix tables invert; (R09c) migration of the legacy layouts produces loadable names in the right directory with .v1 exactly for CAS; (R09b) scanned files are ordered by ascending access time and inserted oldest first; (R09e) only lost+found and .DS_Store are tolerated; (R09f) start-up returns only once the eviction backlog drained; (R05d) the loader's Add rejects an entry only when its on-disk size exceeds max_size (everything that fits is kept).",
+	prop("C09", []string{"R09b", "R09c", "R09e", "R09f", "R04e", "R15a", "R05d", "R17c"},
+		structural+"Decided: (R04e/R15a) every name the writer can produce is accepted by the loader's grammar with the capture groups landing on the fields scanDir assigns, and the kind/prefix tables invert; (R09c) migration of the legacy layouts produces loadable names in the right directory with .v1 exactly for CAS; (R09b) scanned files are ordered by ascending access time and inserted oldest first; (R09e) only lost+found and .DS_Store are tolerated; (R09f) start-up returns only once the eviction backlog drained, and (R17c) the backlog counter it waits on is increased and decreased by the same field of the same entry (otherwise the wait never ends or ends early); (R05d) the loader's Add rejects an entry only when its on-disk size exceeds max_size (everything that fits is kept).",
 		"Not decided: behaviour on every possible directory content (that quantifies over file-system states), content preservation of migrated files, atime semantics of the platform.")
 	prop("C10", []string{"R10a", "R10b", "R10c", "R10d", "R10g", "R07f", "R02b"},
 		structural+"Decided: (R10a) a digest is marked found only on a sized local hit, the empty-digest test or a positive backend answer; (R10b) oversize digests are never asked of the backend; (R10c) the batching loop consumes the whole list with consistent bounds; (R10d) compaction is a single forward, order-preserving copy of the non-nil elements; (R10g) the response is the filtered request slice, every digest validated first; (R07f) each worker writes its own slice element and all are awaited before the result is read; (R02b) the empty blob is never missing.",
